@@ -67,6 +67,8 @@ def plan(tier, seed):
     for i in range(4 if q else 12):
         jobs.append({"name": "adapter%d" % i, "spec": {"kind": "adapter", "n": 120 if q else 10000}})
     jobs.append({"name": "splits", "spec": {"kind": "splits", "maxlen": 8 if q else 11}})
+    for i in range(2 if q else 8):
+        jobs.append({"name": "threads%d" % i, "spec": {"kind": "threads", "rounds": 3 if q else 20, "same_key": i % 2 == 0}})
     return jobs
 
 
@@ -75,7 +77,7 @@ def mandatory_bins(tier):
     b += ["block_key%d" % k for k in (16, 24, 32)]
     b += ["mode_" + m for m in ("ecb", "cbc", "cfb", "ofb", "ctr")]
     b += ["cfb_seg%d" % s for s in range(1, 17)]
-    b += ["block_mixed_call_sequence_on_one_object"]
+    b += ["block_mixed_call_sequence_on_one_object", "adapter_objects_used_by_concurrent_threads"]
     b += ["cbc_default_iv", "cfb_default_iv", "ofb_default_iv", "ctr_default_counter"]
     b += ["ctr_wraparound", "ctr_carry", "all_compositions", "empty_chunk", "feeder_pkcs7", "feeder_none", "stream_bs1", "stream_bs15", "stream_bs16", "stream_bs17", "stream_bs8192", "stream_with_short_reads",
           "adapter_history", "adapter_shared_key_iv", "adapter_trailing_zero_plaintext", "adapter_len_mod16_0", "adapter_len_mod16_1", "adapter_len_mod16_15", "adapter_explicit_iv", "adapter_default_iv", "adapter_long_data", "global_state_unchanged"]
@@ -504,6 +506,47 @@ def run_shard(spec, ctx):
                         rp = {"kind": "feeder", "mode": mode, "key": key.hex(), "iv": iv.hex(), "seg": seg, "ctr0": str(ctr0), "data": data.hex(), "parts": list(parts), "padding": "default"}
                         feeder_case(ns, ctx, mode, key, iv, seg, ctr0, data, parts, "default", rp)
         return
+    if kind == "threads":
+        # adapter objects of several threads alive and working at the same time (same key and IV in half of the shards): the
+        # threads are interleaved at every source line of the adapter and of the CBC mode code; every result against OpenSSL
+        from ..sched import yieldrun
+
+        codes = yieldrun.code_objects_of(ns.plugin.AES128Proxy, ns.aes.AESModeOfOperationCBC, ns.aes.AESBlockModeOfOperation)
+        total_y = 0
+        for rnd in range(spec["rounds"]):
+            nthreads = (2, 3, 4)[rnd % 3]
+            shared_key = rng.randbytes(16)
+            keys = [shared_key if spec["same_key"] else rng.randbytes(16) for _ in range(nthreads)]
+            datas = [rng.randbytes(rng.choice((16, 33, 64, 100))) for _ in range(nthreads)]
+
+            def body(i):
+                def run():
+                    a = ns.crypto.create_AES128(keys[i])
+                    ct = a.encrypt(datas[i])
+                    b = ns.crypto.create_AES128(keys[i])
+                    return ct, b.decrypt(ct), a.mac(datas[i])
+                return run
+
+            res, y = yieldrun.run_concurrently([body(i) for i in range(nthreads)], codes, sleep=0.0001, max_yields=30000)
+            total_y += y
+            ctx.ev(nthreads)
+            ctx.bin("adapter_objects_used_by_concurrent_threads")
+            ctx.mon("adapter_call", 3 * nthreads)
+            ctx.distinct("threads", rnd, keys, datas)
+            rp = {"kind": "threads", "same_key": spec["same_key"], "threads": nthreads}
+            for i, r in enumerate(res):
+                padded = ossl.pad0(datas[i])
+                exp = ossl.aes_cbc(keys[i], ossl.ZERO_IV, padded, True)
+                if r is None:
+                    ctx.note("thread_still_running_after_timeout(inconclusive)")
+                elif r[0] == "exc":
+                    ctx.violation("adapter_raises_under_concurrent_use", {"exc": r[1], "same_key": spec["same_key"]}, rp)
+                elif r[1] != (exp, padded, exp[-16:]):
+                    what = "encrypt" if r[1][0] != exp else "decrypt" if r[1][1] != padded else "mac"
+                    ctx.violation("adapter_result_differs_under_concurrent_use:" + what, {"same_key": spec["same_key"], "threads": nthreads, "len": len(datas[i])}, rp)
+        ctx.mon("line_yields_injected", total_y)
+        ctx.sample({"kind": "threads", "rounds": spec["rounds"], "line_yields": total_y})
+        return
     if kind == "adapter":
         before = snapshot_globals(ns)
         mk = ns.crypto.create_AES128
@@ -595,6 +638,8 @@ def replay(rec, ctx):
             direct_mode_case(ns, ctx, *args, rec["enc"], rec)
         else:
             feeder_case(ns, ctx, *args, rec["padding"], rec)
+    elif k == "threads":
+        run_shard({"kind": "threads", "rounds": 3, "same_key": bool(rec.get("same_key"))}, ctx)
     elif k == "block":
         key, blk = h(rec["key"]), h(rec["block"])
         ctx.ev()
